@@ -24,6 +24,30 @@ def gen(ctx):
     add([{"form": "list", "frames": [fr, {"fields": [], "bin": None, "binpos": None}, fr], "error": (2 ** 64 - 1, 2 ** 64 - 1, "x_y", "m"),
           "partial": fr}], b"O")
     add([{"form": "single", "frames": [{"fields": [], "bin": b"", "binpos": 0}], "error": None, "partial": None}], b"")
+    # keys that are proper prefixes of a keyword (an earlier grammar alternative is still waiting for more bytes), with empty values,
+    # byte at a time and cut right after the key
+    small = lambda k, v: {"form": "single", "frames": [{"fields": [(k, v)], "bin": None, "binpos": None}], "error": None, "partial": None}
+    for k in ("l", "b", "O", "A", "li", "list_O", "bi", "binar", "AC"):
+        for v in ("", "x"):
+            for rs in ([small(k, v)], [small("a", "1"), small(k, v)], [{"form": "single", "frames": [{"fields": [("a", "1"), (k, v)], "bin": None, "binpos": None}], "error": None, "partial": None}]):
+                st = b"".join(g.enc_response(r) for r in rs)
+                exp = [g.show_response(r) for r in rs]
+                segs = [g.seg_bytes(st)] + [[st[:i], st[i:]] for i in range(1, len(st))]
+                for seg in segs:
+                    for fl in ("b", "a"):
+                        cases.append(g.case_line("recv", fl, 0, "eof", seg))
+                        expect.append(exp)
+    # single components far larger than any buffer (binarylimit can be raised; long sticker values), written in small and large pieces
+    follow = small("next", "1")
+    for big in ({"form": "single", "frames": [{"fields": [("size", "131072")], "bin": bytes((i * 13 + 7) % 256 for i in range(131072)), "binpos": 1}], "error": None, "partial": None},
+                {"form": "single", "frames": [{"fields": [("sticker", "lyrics=" + "y" * 90000)], "bin": None, "binpos": None}], "error": None, "partial": None},
+                {"form": "single", "frames": [{"fields": [], "bin": b"OK\n" * 22000, "binpos": 0}], "error": None, "partial": None}):
+        st = g.enc_response(big) + g.enc_response(follow)
+        exp = [g.show_response(big), g.show_response(follow)]
+        for seg in ([st], [st[i:i + 1024] for i in range(0, len(st), 1024)], [st[i:i + 16384] for i in range(0, len(st), 16384)], g.seg_random(rng, st, maxlen=70000)):
+            for fl in ("b", "a"):
+                cases.append(g.case_line("recv", fl, 0, "eof", seg))
+                expect.append(exp)
     for _ in range(n):
         k = rng.choice([1, 1, 2, 3, 5])
         rs = [g.gen_response(rng, payload_max=rng.choice([200, 200, 9000])) for _ in range(k)]
